@@ -111,10 +111,13 @@ HapSets(tx, V, cfg, loose) ==
 VariantPeptidesT(tx, V, cfg, canonical, dropTail, loose) ==
   LET HS == HapSets(tx, V, cfg, loose)
       main == UNION {HapPeptidesT(tx, H, cfg, dropTail) : H \in HS}
-      (* a Sec-truncated peptide is reported by callVariant only when it carries a       *)
-      (* variant: Complete leaves out what the unmodified transcript also gives          *)
-      sect == (UNION {HapSect(tx, H, cfg) : H \in HS}) \ (IF loose THEN {} ELSE HapSect(tx, {}, cfg))
-      base == (main \cup sect) \ (RefPeptides(tx, cfg) \cup canonical)
+      (* with Sec termination switched on, the Sec-truncated fragments of the UNMODIFIED   *)
+      (* transcript are digestion products of the unmodified transcript too (they are      *)
+      (* callAltTranslation's peptides): Complete does not require them, under whatever     *)
+      (* label; Sound allows them                                                           *)
+      sectAll == UNION {HapSect(tx, H, cfg) : H \in HS}
+      refsect == IF loose THEN {} ELSE HapSect(tx, {}, cfg)
+      base == (main \cup sectAll) \ (RefPeptides(tx, cfg) \cup canonical \cup refsect)
       (* W>F images are made from the variant peptides themselves                        *)
       w2f == IF W2FOn(cfg) THEN W2FAll(base, cfg) \ (IF loose THEN canonical ELSE (RefPeptides(tx, cfg) \cup canonical)) ELSE {}
   IN base \cup w2f
